@@ -74,7 +74,23 @@ def run_compiled(cases, tag, flavor, want, batch_size=150, keep=None):
             alltext = " ".join(e["message"] + " " + e.get("rendered", "") for e in m.errors)
             flags = [t for t, rx in (("entry", r"ENTRY_|_entry\b|WORKGROUP_SIZE|VertexEntry|FragmentEntry|_pipeline\b"), ("bindgroup", r"BindGroup|bind_groups|LAYOUT_DESCRIPTOR"),
                                      ("override", r"OverrideConstants|\bentries\b"), ("vertex", r"VERTEX_ATTRIBUTES|vertex_buffer_layout"), ("const", r"\bconst\b")) if _re.search(rx, alltext)]
-            o["compile"] = {"outcome": "reject" if m.errors else "ok", "classes": classes, "flags": flags,
+            # structs a layout / padding rejection points at: by name in the assertion text, else by source line
+            rejected = set()
+            src_lines = m.rs.splitlines()
+            for e in m.errors:
+                if B.classify(e) not in ("LayoutAssert", "PodPadding"):
+                    continue
+                mm = _re.search(r"(?:offset of (\w+)\.|size of (\w+) does)", e["message"] + " " + e.get("rendered", ""), _re.UNICODE)
+                if mm:
+                    rejected.add(mm.group(1) or mm.group(2))
+                    continue
+                for ln in e.get("lines", []):
+                    for k in range(max(0, ln - 1), min(len(src_lines), ln + 6)):
+                        sm = _re.search(r"pub struct (\w+)", src_lines[k], _re.UNICODE)
+                        if sm:
+                            rejected.add(sm.group(1))
+                            break
+            o["compile"] = {"outcome": "reject" if m.errors else "ok", "classes": classes, "flags": flags, "rejected_structs": sorted(rejected),
                             "errors": [e["message"][:300] for e in m.errors[:4]],
                             "probe_fail": [{"probe": pn, "code": es[0].get("code") or "?", "message": es[0]["message"][:300]} for pn, es in m.probe_errors.items()]}
             o["rt"] = rt_by_case.get(cid, [])
